@@ -1,7 +1,12 @@
-from notelib import note_check
+from notelib import *
 
 
 def main(tier, replay=None):
+    def extra(run, exe):
+        # the other constructor: nsync_counter_new, failing and succeeding, with the counter under test in use
+        cfgs = [("a_counter", dict(progs=[[lop("new", a=2, d=2, x=1), lop("new", a=2, d=2, x=0), lop("add", a=-1, d=-1, x=0)], [lop("new", a=0, d=0, x=1), lop("wait", d=0, x=0)]], init={"V0": 1}, V0=1))]
+        run_family(run, exe, "Counter", "C19", cfgs, lambda c: dict(V0=c.get("V0", 0), MaxNow=0), {"NoStuck"}, {"O-crash", "O-prog", "O-lin"})
     return note_check("C19", tier, replay, {"NoStuck", "NoUseAfterFree"}, {"O-crash", "O-prog", "O-mem", "O-lin"},
-                      rule_extra="; C19: the programs build small note trees and each allocation performed by nsync_note_new is failed in turn (the `new` operation with x=1): "
-                                 "the constructor must return NULL, the projected tree must equal the specification's unchanged state, and the rest of the behaviour must replay")
+                      rule_extra="; C19: the programs build small note trees and counters, and each allocation performed by nsync_note_new / nsync_counter_new is failed in turn "
+                                 "(the `new` operation with x=1): the constructor must return NULL, the projected state must equal the specification's unchanged state, "
+                                 "and the rest of the behaviour must replay", extra=extra)
